@@ -1,5 +1,5 @@
 import Mimium.Proofs.StateTreeApply
-import Mimium.Proofs.StateTreeFlat
+import Mimium.Proofs.StateTreeMixed
 import Mimium.Model.StateTreeCheck
 /-!
 # C08 — State migration plans are well-formed and keep everything that survives
@@ -285,18 +285,34 @@ theorem C08_survivors_mixed_children (ocs ncs : List Sk) (hd : Distinct ocs ncs)
   obtain ⟨hi, hj, hmm⟩ := hd.common_matches p hp
   exact ⟨hi, hj, hmm, patch_of_common ocs ncs hnm p.1 p.2 hi hj hmm hp⟩
 
+/-- **removed and added subtrees, any depth** (`mixedOk`: at every node that is not copied whole the similar child
+pairs form a chain — no child is similar to two children of the other side, no crossing — recursively): whatever
+description of the edit by removed and added subtrees one takes (`Kept o n k`: it keeps `k` words), the plan carries at
+least that many words.  With `embeds` this gives the clause itself on this class, in both directions. -/
+theorem C08_survivors_mixed_partial (o n : Sk) (h : mixedOk o n = true) :
+    (∀ k, Kept o n k → k ≤ carried (takeDiff o n)) ∧
+    (embeds o n = true → carried (takeDiff o n) = o.size) ∧
+    (embeds n o = true → carried (takeDiff o n) = n.size) := by
+  refine ⟨fun k hk => mixed_kept o n h k hk, fun he => ?_, fun he => ?_⟩
+  · have := mixed_kept o n h _ (kept_of_embeds o n he)
+    have := carried_le_old o n
+    unfold takeDiff; omega
+  · have := mixed_kept o n h _ (kept_of_embeds n o he).symm
+    have := carried_le_new o n
+    unfold takeDiff; omega
+
 /-- **boundary**: outside the decidable class `survivorsMayFail` the executable survivor judge accepts the plan -/
 theorem C08_survivors_outside_boundary (o n : Sk) (h : survivorsMayFail o n = false) :
     survivorsB o n (takeDiff o n) = true := by
-  simp only [survivorsMayFail, Bool.or_eq_false_iff, Bool.and_eq_false_iff, Bool.not_eq_false'] at h
+  obtain ⟨h1, h2⟩ := survivors_of_not_mayFail o n h
   simp only [survivorsB, Bool.and_eq_true, Bool.or_eq_true, Bool.not_eq_true', beq_iff_eq]
   refine ⟨?_, ?_⟩
-  · rcases h.1 with h1 | h1
-    · left; exact h1
-    · right; exact addOnly_carried o n h1
-  · rcases h.2 with h1 | h1
-    · left; exact h1
-    · right; exact removeOnly_carried o n h1
+  · by_cases he : embeds o n = true
+    · right; exact h1 he
+    · left; simpa using he
+  · by_cases he : embeds n o = true
+    · right; exact h2 he
+    · left; simpa using he
 
 /-- … and both refuting witnesses lie inside it (as do their mirror images for removal) -/
 theorem C08_survivors_counterexamples_in_boundary :
@@ -331,6 +347,33 @@ example :
     let B := Sk.fn [.delay 3]
     Distinct [A, B] [.mem 2, A, B, A] ∧ [A, B].Sublist [.mem 2, A, B, A] :=
   ⟨by unfold Distinct; decide +kernel, .cons _ (.cons_cons _ (.cons_cons _ (.cons _ .slnil)))⟩
+
+/-- a mixed edit (one child removed, one added, one added inside a surviving child): in `mixedOk`, in neither of the
+one-directional classes; a description keeping 3 words exists and 3 words are carried -/
+example :
+    let o := Sk.fn [.mem 1, .fn [.mem 2, .feed 1]]
+    let n := Sk.fn [.fn [.mem 2, .delay 1, .feed 1], .feed 2]
+    mixedOk o n = true ∧ addOnly o n = false ∧ removeOnly o n = false ∧ Kept o n 3 ∧
+      carried (takeDiff o n) = 3 := by
+  refine ⟨by decide +kernel, by decide +kernel, by decide +kernel, ?_, by decide +kernel⟩
+  have inner : Kept (.fn [.mem 2, .feed 1]) (.fn [.mem 2, .delay 1, .feed 1]) 3 := by
+    have := Kept.node [.mem 2, .feed 1] [.mem 2, .delay 1, .feed 1] [(0, 0), (1, 2)]
+      (fun p => if p = (0, 0) then 2 else 1) (by simp [IncFrom]) (by
+        intro i j hi hj hm
+        simp only [List.mem_cons, Prod.mk.injEq, List.mem_nil_iff, or_false] at hm
+        rcases hm with ⟨rfl, rfl⟩ | ⟨rfl, rfl⟩
+        · have := Kept.whole (.mem 2) (.mem 2) (by decide)
+          simpa [Sk.size] using this
+        · have := Kept.whole (.feed 1) (.feed 1) (by decide)
+          simpa [Sk.size] using this)
+    simpa [psum] using this
+  have := Kept.node [.mem 1, .fn [.mem 2, .feed 1]] [.fn [.mem 2, .delay 1, .feed 1], .feed 2] [(1, 0)]
+    (fun _ => 3) (by simp [IncFrom]) (by
+      intro i j hi hj hm
+      simp only [List.mem_cons, Prod.mk.injEq, List.mem_nil_iff, or_false] at hm
+      obtain ⟨rfl, rfl⟩ := hm
+      simpa using inner)
+  simpa [psum] using this
 
 /-- `C08_lcs_maximal`: 0/1 scores satisfy the hypothesis -/
 example (s : Nat → Nat → Nat) (h : ∀ i j, s i j ≤ 1) :
